@@ -1,6 +1,7 @@
 (* C05 - pinned statements (SetSketch: registers are maxima, merge = union, lower bound sound). *)
 From Coq Require Import List ZArith Bool.
-From PMH Require Import Lib.ListArr Model.SetSketch Proofs.SetSketch.
+From PMH Require Import Lib.ListArr Model.SetSketch Proofs.SetSketch Model.ProbMinHash Proofs.ProbMinHash
+  Model.SuperMinHash Proofs.SuperMinHash Gen.FlagsSmh.
 Import ListNotations.
 Open Scope Z_scope.
 
@@ -56,6 +57,31 @@ Theorem C05_merge_refused : forall s o, params_mergeable (ss_par s) (ss_par o) =
   ss_merge s o = (s, false).
 Proof. exact ss_merge_refused. Qed.
 
+(* SuperMinHash: the sketch is the position-wise minimum over the draws of all items, so the sketch of
+   a union is the position-wise minimum of the sketches (in particular of the single-item sketches) *)
+Theorem C05_superminhash_source_flag : smh_hist_by_floor = true.
+Proof. exact eq_refl. Qed.
+
+Theorem C05_superminhash_is_min : forall (F : Z -> Z), (forall a b, a <= b -> F a <= F b) -> (forall a, 0 <= F a) ->
+  forall large, snd large = F (fst large) ->
+  forall m its s, (1 <= m)%nat -> Z.of_nat m <= snd large -> (forall sc, In sc its -> itemF_ok F large m sc) ->
+  bind (smh_new m large) (fun s0 => smh_items s0 its) = Ok s ->
+  sm_m s = m /\ forall x, (x < m)%nat -> fst (nthp (sm_h s) x) = min_at (alltagsF m its) (fst large) x.
+Proof. exact smh_is_min. Qed.
+
+Theorem C05_superminhash_union_is_min : forall (F : Z -> Z), (forall a b, a <= b -> F a <= F b) -> (forall a, 0 <= F a) ->
+  forall large, snd large = F (fst large) ->
+  forall m its1 its2 s1 s2 s12, (1 <= m)%nat -> Z.of_nat m <= snd large ->
+  (forall sc, In sc (its1 ++ its2) -> itemF_ok F large m sc) ->
+  bind (smh_new m large) (fun s0 => smh_items s0 its1) = Ok s1 ->
+  bind (smh_new m large) (fun s0 => smh_items s0 its2) = Ok s2 ->
+  bind (smh_new m large) (fun s0 => smh_items s0 (its1 ++ its2)) = Ok s12 ->
+  forall x, (x < m)%nat -> fst (nthp (sm_h s12) x) = Z.min (fst (nthp (sm_h s1) x)) (fst (nthp (sm_h s2) x)).
+Proof. exact smh_union_is_min. Qed.
+
+Print Assumptions C05_superminhash_source_flag.
+Print Assumptions C05_superminhash_is_min.
+Print Assumptions C05_superminhash_union_is_min.
 Print Assumptions C05_invariant_new.
 Print Assumptions C05_invariant_item.
 Print Assumptions C05_invariant_reinit.
